@@ -43,3 +43,28 @@ Proof.
   specialize (H 4 w_state ltac:(discriminate) w_reach w_at_rest b Hb). rewrite Hw in H. discriminate.
 Qed.
 Print Assumptions C16_full_refuted.
+
+(* ---- a cancel that hits an acquire() between the completion of its waiter future and the
+        resumption of its task loses the wake-up: T1 holds the only connection, T2 and T3 queue,
+        T1 releases (T2's waiter is completed), T2 is cancelled, T2's task resumes with
+        CancelledError.  The connection sits on the stack, T3 is still queued, nothing is scheduled. *)
+Definition c_trace : list (event * oracle) :=
+  [(EAcquire 1%N 1%N, mkOracle [] [] [] false []); (ERun, mkOracle [] [] [] false []);
+   (ERun, mkOracle [] [] [] false []); (EConnOk 1%N, mkOracle [] [] [] false []);
+   (ERun, mkOracle [] [] [] false []); (ERun, mkOracle [1%N] [] [] false []);
+   (EAcquire 2%N 1%N, mkOracle [] [] [] false []); (EAcquire 3%N 1%N, mkOracle [] [] [] false []);
+   (ERun, mkOracle [1%N] [] [] false []); (ERun, mkOracle [1%N] [] [] false []);
+   (ERelease 1%N 1%N false, mkOracle [1%N] [] [] false []); (ECancel 2%N, mkOracle [] [] [] false []);
+   (ERun, mkOracle [1%N] [] [] false [])].
+Definition c_state : pool :=
+  Eval vm_compute in match run (init 1) c_trace with Some s => s | None => init 0 end.
+
+Theorem C16_late_cancel_loses_wakeup :
+  reach 1 c_state /\ c_state.(ready) = [] /\
+  exists b, In b c_state.(blocks) /\ b.(b_stack) = [1%N] /\ b.(b_waiters) = [(3%N, WAcq)] /\
+            has_pending b.(b_waiters) = true /\ nwok c_state b.(b_id) = 0.
+Proof.
+  split; [apply (run_reach 1 c_trace (init 1)); [apply reach_init|vm_compute; reflexivity]|].
+  split; [vm_compute; reflexivity|]. eexists. split; [vm_compute; left; reflexivity|vm_compute; repeat split].
+Qed.
+Print Assumptions C16_late_cancel_loses_wakeup.
